@@ -782,31 +782,48 @@ SPACE = {"storage_rw": "var<storage, read_write>", "storage_r": "var<storage, re
          "private": "var<private>", "workgroup": "var<workgroup>"}
 
 
-def render(prog):
-    out = []
+def render(prog, reverse=False):
+    """reverse=True: entry point first, helpers in reverse order, then globals, constants and structs
+    (module-scope declarations may be used before they are declared in WGSL)."""
+    if reverse:
+        parts = _render_parts(prog)
+        return "\n".join(parts["entry"] + [l for f in reversed(parts["funcs"]) for l in f] + parts["globals"]
+                         + parts["consts"] + parts["structs"]) + "\n"
+    p = _render_parts(prog)
+    return "\n".join(p["structs"] + p["consts"] + p["globals"] + [l for f in p["funcs"] for l in f] + p["entry"]) + "\n"
+
+
+def _render_parts(prog):
+    parts = {"structs": [], "consts": [], "globals": [], "funcs": [], "entry": []}
+    out = parts["structs"]
     for s in prog["structs"]:
         out.append("struct %s {" % s["name"])
         for m in s["members"]:
             out.append("  %s: %s," % (m["n"], tstr(m["t"])))
         out.append("}")
+    out = parts["consts"]
     for c in prog["consts"]:
         out.append("const %s: %s = %s;" % (c["n"], tstr(c["t"]), render_expr(c["e"])))
+    out = parts["globals"]
     for g in prog["globals"]:
         attr = "@group(%d) @binding(%d) " % (g["group"], g["binding"]) if g["space"] in ("storage_rw", "storage_r", "uniform") else ""
         init = " = %s" % render_expr(g["e"]) if g.get("e") is not None else ""
         out.append("%s%s %s: %s%s;" % (attr, SPACE[g["space"]], g["n"], tstr(g["t"]), init))
     for f in prog["funcs"]:
+        out = []
         ps = ", ".join("%s: %s" % (q["n"], tstr(q["t"])) for q in f["params"])
         ret = " -> %s" % tstr(f["ret"]) if f["ret"] is not None else ""
         out.append("fn %s(%s)%s {" % (f["n"], ps, ret))
         out += render_block(f["body"], 1)
         out.append("}")
+        parts["funcs"].append(out)
+    out = parts["entry"]
     e = prog["entry"]
     out.append("@compute @workgroup_size(%d, %d, %d)" % tuple(e["wg"]))
     out.append("fn %s(@builtin(global_invocation_id) gid: vec3<u32>) {" % e["n"])
     out += render_block(e["body"], 1)
     out.append("}")
-    return "\n".join(out) + "\n"
+    return parts
 
 
 # ---------------------------------------------------------------- input data (IR/Values JSON codec)
